@@ -335,7 +335,7 @@ impl Ctx {
                 "check": v.check, "message": v.message, "replay": v.replay_path, "case": v.case
             })).collect::<Vec<_>>(),
         });
-        if !self.strict {
+        if !self.strict && std::env::var("VERIF_ONLY").is_err() {
             let dir = format!("{}/evidence", VERIF_DIR);
             let _ = std::fs::create_dir_all(&dir);
             let path = format!("{}/{}.json", dir, self.id);
